@@ -52,6 +52,7 @@ type Config struct {
 	Batch   int    // commands per block
 	AsyncVotes bool // votes are verified concurrently (the production default) instead of synchronously
 	ActorReuseCmds bool // every other block of the actor re-proposes the commands of an earlier block
+	Latency   bool // every server has a latency matrix (all replicas at one location: zero delay), as experiments with locations have
 	ActorAuto bool // the actor behaves honestly by default (votes, collects, proposes); scripted actions are the deviations
 	ByView  []ViewSpec // optional Twins-style scenario: partitions (and leader) chosen by the SENDER's view, messages dropped at send time
 	KauriTree bool // the replicas' configurations carry a Kauri tree (branch factor 2, default positions); only the server's receive path looks at it here
@@ -368,7 +369,15 @@ func (cl *Cluster) wire(st *Stack) error {
 		}
 	}, eventloop.Prioritize())
 	st.CIO = server.NewClientIO(st.EL, lg, st.Cache)
-	st.Srv = server.NewServer(st.EL, lg, st.Cfg, st.BC)
+	var sopts []server.ServerOption
+	if cl.Cfg.Latency {
+		locs := make([]string, cl.Cfg.N)
+		for i := range locs {
+			locs[i] = "Oslo"
+		}
+		sopts = append(sopts, server.WithLatencies(st.ID, locs))
+	}
+	st.Srv = server.NewServer(st.EL, lg, st.Cfg, st.BC, sopts...)
 	// part 2 (registered after ClientIO's own handler, so it runs after it): which commands of the batch were applied?
 	eventloop.Register(st.EL, func(e clientpb.ExecuteEvent) { st.recoverApplied(e.Batch) })
 	eventloop.Register(st.EL, func(c hotstuff.CommitEvent) { st.Commits = append(st.Commits, c.Block) })
@@ -536,6 +545,10 @@ func (s *sender) RequestBlock(_ context.Context, h hotstuff.Hash) (*hotstuff.Blo
 			}
 		case "actor":
 			if cl.Actor != nil && cl.Actor.ServeFetch {
+				if t, ok := cl.Actor.Twin[h]; ok {
+					cl.Faults["fetch-served-other-block-with-same-hash"]++
+					return t, true
+				}
 				for _, b := range cl.AllBlk {
 					if b.Hash() == h && b.View() >= cl.Actor.ServeFrom {
 						cl.Faults["fetch-served-by-actor"]++
